@@ -160,6 +160,29 @@ fn cq_pipe(router: &Router<Rule>, example: &Example, backend: &Value, response: 
         cq_str(response["body"].as_str()?), cq_bool(log.as_bool()?)))
 }
 
+/// the unit trace an analysis reports with the rules the router matched (and their unit fields), as a Coq `upipe19` term
+/// (RIO.C19UnitsRun); None when a matched rule carries an HTML body filter (its visitor writes to the trace and is
+/// outside the unit-trace model)
+fn cq_upipe(router: &Router<Rule>, example: &Example, unit_trace: &Value) -> Option<String> {
+    let request = Request::from_example(&router.config, example).ok()?;
+    let routes = router.match_request(&request);
+    let mut html_dropped = false;
+    let mut names: BTreeSet<String> = BTreeSet::new();
+    names.insert("Location".to_string());
+    let rules: Vec<String> = routes.iter().map(|r| crate::c05::cq_urule_api(&serde_json::to_value(r.handler()).unwrap(), &mut html_dropped, &mut names)).collect();
+    if html_dropped { return None; }
+    let lower: Vec<(String, String)> = names.iter().map(|n| (n.clone(), n.to_lowercase())).filter(|(a, b)| a != b).collect();
+    let skipped = request.path_and_query_skipped.skipped_query_params.clone();
+    let strs = |v: &Value| -> Vec<String> { v.as_array().map(|a| a.iter().map(|x| x.as_str().unwrap_or("").to_string()).collect()).unwrap_or_default() };
+    let values: Vec<(String, String)> = unit_trace["value_computed_by_units"].as_object().map(|m| m.iter().map(|(k, v)| (k.clone(), v.as_str().unwrap_or("").to_string())).collect()).unwrap_or_default();
+    Some(format!("{{| up_rules := {}; up_skipped := {}; up_code := {}; up_lower := {}; uo_rule_ids := {}; uo_unit_ids_applied := {}; uo_unit_ids_seen := {}; uo_values := {} |}}",
+        cq_list(&rules, |x| x.clone()), match &skipped { None => "None".to_string(), Some(x) => format!("(Some {})", cq_str(x)) },
+        match example.response_status_code { None => "None".to_string(), Some(c) => format!("(Some {})", c) },
+        cq_list(&lower, |(a, b)| format!("({}, {})", cq_str(a), cq_str(b))),
+        cq_list(&strs(&unit_trace["rule_ids_applied"]), |x| cq_str(x)), cq_list(&strs(&unit_trace["unit_ids_applied"]), |x| cq_str(x)),
+        cq_list(&strs(&unit_trace["unit_ids_seen"]), |x| cq_str(x)), cq_list(&values, |(k, v)| format!("({}, {})", cq_str(k), cq_str(v)))))
+}
+
 /// one hop of the redirect chain, computed independently of RedirectionLoop: the live pipeline for (url, method), the
 /// Location joined to the current url, the 301/302 method rewrite, and whether the target leaves the project's domains
 fn one_hop(router: &Router<Rule>, example: &Example, url: &str, method: &str, domains: &[String]) -> Option<(String, String, u64, bool)> {
@@ -212,6 +235,7 @@ pub fn run_case(id: usize, input: &Value) {
         let i_alone_j = serde_json::to_value(&i_alone).unwrap();
         let mut impact_same = proj_impacts(&serde_json::to_value(&i_proj).unwrap()) == proj_impacts(&i_alone_j);
         let mut pipes: Vec<String> = Vec::new();
+        let mut upipes: Vec<String> = Vec::new();
         // the response impact reports for each example of the rule = the live pipeline on the router it describes
         {
             let mut ir = Router::<Rule>::from_config(cfg.clone());
@@ -225,6 +249,7 @@ pub fn run_case(id: usize, input: &Value) {
                 let reported = json!({"status_code": i["response"]["status_code"], "headers": i["response"]["headers"], "body": i["response"]["body"], "log": i["should_log_request"]});
                 if live.as_ref() != Some(&reported) { impact_same = false; }
                 if let Some(p) = cq_pipe(&ir, &ex, &i["backend_status_code"], &i["response"], &i["should_log_request"]) { pipes.push(p); }
+                if let Some(p) = cq_upipe(&ir, &ex, &i["unit_trace"]) { upipes.push(p); }
             }
         }
         // 5. the reported response against the live pipeline on a router built from scratch
@@ -234,6 +259,7 @@ pub fn run_case(id: usize, input: &Value) {
         let live = live_pipeline(&fresh, &example);
         let reported = ep.as_ref().map(|o| json!({"status_code": o["response"]["status_code"], "headers": o["response"]["headers"], "body": o["response"]["body"], "log": o["should_log_request"]}));
         if let Some(o) = ea.as_ref() { if let Some(p) = cq_pipe(&fresh, &example, &o["backend_status_code"], &o["response"], &o["should_log_request"]) { pipes.push(p); } }
+        if let Some(o) = ea.as_ref() { if let Some(p) = cq_upipe(&fresh, &example, &o["unit_trace"]) { upipes.push(p); } }
         // 6. the redirect chain: one-hop table from the implementation itself (max_hops = 1), the chain for max_hops
         let fresh = Arc::new(fresh);
         let mut nodes: Vec<(String, String)> = Vec::new();
@@ -257,9 +283,9 @@ pub fn run_case(id: usize, input: &Value) {
             k += 1;
         }
         let chain = ep.as_ref().map(|o| o["redirection_loop"].clone()).unwrap_or(Value::Null);
-        (tests_same, units_same, explain_same, impact_same, live, reported, nodes, table, chain, json!({"tests": [proj_tests(&tp), proj_tests(&ta)], "many_failures": many}), pipes)
+        (tests_same, units_same, explain_same, impact_same, live, reported, nodes, table, chain, json!({"tests": [proj_tests(&tp), proj_tests(&ta)], "many_failures": many}), pipes, upipes)
     });
-    let (tests_same, units_same, explain_same, impact_same, live, reported, nodes, table, chain, extra, pipes) = match res {
+    let (tests_same, units_same, explain_same, impact_same, live, reported, nodes, table, chain, extra, pipes, upipes) = match res {
         Ok(x) => x,
         Err(e) => { emit(id, "", input.clone(), &["panic".to_string()], false, json!({"panic": e})); return; }
     };
@@ -272,8 +298,8 @@ pub fn run_case(id: usize, input: &Value) {
     }
     let err_code = match chain["error"].as_str() { None => 0, Some("AtLeastOneHop") => 1, Some("TooManyHops") => 2, Some("Loop") => 3, _ => 9 };
     let has_chain = !chain.is_null() && chain_ok && table.len() == nodes.len();
-    let coq = format!("{{| k_tests_same := {}; k_units_same := {}; k_explain_same := {}; k_impact_same := {}; k_pipeline_same := {}; k_pipes := {}; k_has_chain := {}; k_max := {}; k_table := {}; o_hops := {}; o_err := {} |}}",
-        cq_bool(tests_same), cq_bool(units_same), cq_bool(explain_same), cq_bool(impact_same), cq_bool(pipeline_same), cq_list(&pipes, |x| x.clone()), cq_bool(has_chain), input["max_hops"].as_u64().unwrap(),
+    let coq = format!("{{| k_tests_same := {}; k_units_same := {}; k_explain_same := {}; k_impact_same := {}; k_pipeline_same := {}; k_pipes := {}; k_upipes := {}; k_has_chain := {}; k_max := {}; k_table := {}; o_hops := {}; o_err := {} |}}",
+        cq_bool(tests_same), cq_bool(units_same), cq_bool(explain_same), cq_bool(impact_same), cq_bool(pipeline_same), cq_list(&pipes, |x| x.clone()), cq_list(&upipes, |x| x.clone()), cq_bool(has_chain), input["max_hops"].as_u64().unwrap(),
         cq_list(&table, |(n, st, ext, sl)| format!("({}, {}, {}, {})", n, match st { None => "None".to_string(), Some((i, c)) => format!("(Some ({}, {}))", i, c) }, cq_bool(*ext), cq_bool(*sl))),
         cq_list(&hops, |(i, c)| format!("({}, {})", i, c)), err_code);
     let mut tags: Vec<String> = vec![format!("max_hops:{}", input["max_hops"]), format!("hops:{}", hops.len().min(8)), format!("err:{}", err_code)];
@@ -286,6 +312,7 @@ pub fn run_case(id: usize, input: &Value) {
     if let Some(l) = &live { tags.push(format!("status:{}", l["status_code"]));  }
     tags.push(format!("impact:{}", input["impact"]["action"].as_str().unwrap()));
     tags.push(format!("pipes:{}", pipes.len().min(4)));
+    tags.push(format!("unit-traces:{}", upipes.len().min(4)));
     let nontrivial = hops.len() >= 2 || live.as_ref().map(|l| l["status_code"] != json!(200) && l["status_code"] != json!(0)).unwrap_or(false);
     emit(id, &coq, input.clone(), &tags, nontrivial, json!({"live": live, "reported": reported, "chain": chain, "more": extra}));
 }
